@@ -55,7 +55,7 @@ impl GenCfg {
 
 pub fn inst_specs(cfg: &GenCfg) -> Vec<SecSpec> {
     vec![
-        sec(20, 1, 1),                                  // params
+        sec(24, 1, 1),                                  // params
         sec(4, 1, if cfg.single_type { 1 } else { MAX_TYPES }), // vehicle types
         sec(2 * MAX_LOCS, 1, MAX_LOCS),                 // locations + their matrix rows
         sec(2 + 2 * MAX_TYPES, 0, 5),                   // depots
@@ -65,6 +65,27 @@ pub fn inst_specs(cfg: &GenCfg) -> Vec<SecSpec> {
     ]
 }
 
+/// Entity ids. Style 0: plain ("T0", "L1", ...). Style 1: exotic but valid strings -- spaces,
+/// non-ASCII letters, ids that are prefixes of one another, ids shared across kinds (a depot
+/// named like a location, a slot named like a vehicle type), ids that look like the program's own
+/// synthetic names ("depot_...").
+pub fn entity_id(kind: char, i: usize, style: usize, prefix: &str) -> String {
+    if style == 0 {
+        return format!("{}{}{}", prefix, kind, i);
+    }
+    let pool: &[&str] = match kind {
+        'T' => &["IC", "IC 2000", "IC2"],
+        'L' => &["Zürich", "Zürich HB", "depot_Zürich", "Z", "Bern (tief)"],
+        'D' => &["Zürich", "IC", "depot Bern", "Z", "D 10"],
+        'M' => &["IC", "Werkstatt Ost", "Werkstatt", "M"],
+        _ => &[],
+    };
+    match pool.get(i) {
+        Some(n) => format!("{}{}", prefix, n),
+        None => format!("{}{}{}", prefix, kind, i),
+    }
+}
+
 pub const BASE_DAY: (i64, i64, i64) = (2024, 2, 28); // crosses Feb 29 of a leap year on day 2
 pub const TICK: i64 = 600;
 
@@ -72,6 +93,7 @@ pub fn decode_inst(t: &Tape, cfg: &GenCfg, prefix: &str) -> Inst {
     let base = days_from_civil(BASE_DAY.0, BASE_DAY.1, BASE_DAY.2) * 86400;
     let p: &[u32] = t.sec(S_PARAMS).first().map(|r| r.as_slice()).unwrap_or(&[]);
 
+    let id_style = pick_w(f(p, 20), &[3, 1]);
     // ---- vehicle types
     let mut types = Vec::new();
     let trecs = t.sec(S_TYPES);
@@ -91,13 +113,13 @@ pub fn decode_inst(t: &Tape, cfg: &GenCfg, prefix: &str) -> Inst {
             3 => Some(3),
             _ => Some(4),
         };
-        types.push(VType { id: format!("{}T{}", prefix, i), capacity, seats, max_form });
+        types.push(VType { id: entity_id('T', i, id_style, prefix), capacity, seats, max_form });
     }
 
     // ---- locations and dead-head matrices
     let lrecs = t.sec(S_LOCS);
     let nlocs = lrecs.len().clamp(1, MAX_LOCS);
-    let locs: Vec<String> = (0..nlocs).map(|i| format!("{}L{}", prefix, i)).collect();
+    let locs: Vec<String> = (0..nlocs).map(|i| entity_id('L', i, id_style, prefix)).collect();
     let dur_choices = [600u64, 0, 1200, 3600, 10800, 400_000];
     let dist_choices = [1000u64, 0, 20_000, 300_000, 2_000_000];
     let symmetric = pick_w(f(p, 15), &[3, 1]) == 0;
@@ -281,7 +303,7 @@ pub fn decode_inst(t: &Tape, cfg: &GenCfg, prefix: &str) -> Inst {
         let duration = if cfg.small_grid { choose(f(r, 2), &[600i64, 1200]) } else { choose(f(r, 2), &[3600i64, 600, 14400]) };
         let tracks = if cfg.cycle_rich { 2 + pick_w(f(r, 3), &[3, 2]) as u64 } else { 1 + pick_w(f(r, 3), &[4, 3, 1]) as u64 };
         slot_list.push(SlotIn {
-            id: format!("{}M{}", prefix, i),
+            id: entity_id('M', i, id_style, prefix),
             location: locs[loc].clone(),
             start: fmt(base + tick * TICK),
             end: fmt(base + tick * TICK + duration),
@@ -333,7 +355,7 @@ pub fn decode_inst(t: &Tape, cfg: &GenCfg, prefix: &str) -> Inst {
                     _ => allowed.push((types[ty].id.clone(), Some(5))),
                 }
             }
-            out.push(DepotIn { id: format!("{}D{}", prefix, i), location: locs[loc].clone(), capacity, allowed });
+            out.push(DepotIn { id: entity_id('D', i, id_style, prefix), location: locs[loc].clone(), capacity, allowed });
         }
         Some(out)
     };
@@ -470,6 +492,9 @@ pub fn inst_classes(fl: &Flat) -> Vec<&'static str> {
         if firsts.windows(2).any(|w| w[0] == w[1]) {
             c.push("twin_departures_same_time");
         }
+    }
+    if inst.types.first().map(|t| t.id.ends_with("IC")).unwrap_or(false) {
+        c.push("exotic_ids");
     }
     if inst.day_limits.iter().any(|d| d.is_some()) {
         c.push("day_limit_present");
